@@ -9,7 +9,9 @@ NamedOps == {[op |-> "addnamed", r |-> r, fn |-> "f", name |-> n] : r \in R4, n 
 ViewOps == {[op |-> "view", r |-> r, vp |-> vp, cls |-> c] : r \in R4, vp \in {<<>>, <<"v">>}, c \in {"V", "W", "M"}}
 MergeOps == {[op |-> "merge", r |-> r, o |-> o] : r \in R4, o \in {"r0", "ra", "rab"}} \ {[op |-> "merge", r |-> x, o |-> x] : x \in R4}
 OpsAll == AddOps \cup NamedOps \cup ViewOps \cup MergeOps
-OpsSmall == {[op |-> "add", r |-> "ra", fn |-> "f"], [op |-> "add", r |-> "rab", fn |-> "g"], [op |-> "add", r |-> "d", fn |-> "f"],
+\* `add ra g` and `addnamed ra f "g"` put two different functions under ONE name of the same registry (the later wins - also
+\* in a registry that merged the earlier one before: merging again brings the replacement)
+OpsSmall == {[op |-> "add", r |-> "ra", fn |-> "g"], [op |-> "add", r |-> "ra", fn |-> "f"], [op |-> "add", r |-> "rab", fn |-> "g"], [op |-> "add", r |-> "d", fn |-> "f"],
              [op |-> "addnamed", r |-> "ra", fn |-> "f", name |-> <<"g">>], [op |-> "addnamed", r |-> "r0", fn |-> "f", name |-> <<"y", "z">>],
              [op |-> "view", r |-> "ra", vp |-> <<"v">>, cls |-> "V"], [op |-> "view", r |-> "rab", vp |-> <<>>, cls |-> "W"],
              [op |-> "view", r |-> "d", vp |-> <<>>, cls |-> "V"], [op |-> "view", r |-> "r0", vp |-> <<>>, cls |-> "M"],
